@@ -1,6 +1,7 @@
 package main
 
 import (
+	"time"
 	"flag"
 	"fmt"
 	"os"
@@ -64,6 +65,7 @@ func main() {
 	}
 	lg()
 	r := NewRun(sc, *tier, *seed, *out)
+	r.Watchdog(5 * time.Minute)
 	func() {
 		// a monitor that found the implementation unable to continue (e.g. a store left locked) ends the run
 		// after recording its failure; everything emitted so far is still compared
